@@ -171,8 +171,8 @@ fn gen_case(rng: &mut Rng, thorough: bool) -> Vec<String> {
             continue;
         }
         g.fill_perspective(if deep { 2 } else { 4 }, !deep);
-        if g.rng.chance(1, 15) {
-            g.mutate(""); // a write left pending (no command)
+        if g.rng.chance(1, 150) {
+            g.mutate(""); // a write left pending (no command): outside the property, model-vs-real only
             g.pending = true;
         }
         g.push("write".into());
